@@ -50,6 +50,9 @@ def __as_text(value):
     """
     if not isinstance(value, str):
         return value
+    if type(value) is not str:
+        # an instance of a subclass of str (e.g. a key of a dict): take the text, not what the subclass makes of it
+        value = str.__str__(value)
     try:
         value.encode('utf-8')
         return value
